@@ -71,7 +71,7 @@ BOUND = Fraction(1, 2**30)
 WORK_LIMIT = 20000
 WORK_LIMIT_LOW = 4000  # limit of the remaining steps of a run once 3 steps have exceeded WORK_LIMIT
 CASE_WALL_S = 300.0  # wall-clock guard of one step: the case is skipped (never judged)
-SHRINK_WALL_S = 90.0  # wall-clock budget of one shrink (only the size of the replay depends on it)
+SHRINK_WALL_S = 45.0  # wall-clock budget of one shrink (only the size of the replay depends on it)
 _EXCEEDED = [0]  # number of steps of this process that hit the work limit
 MAX_EXP = 48
 
@@ -1017,7 +1017,7 @@ def _step(req, c, **extra) -> dict[str, Any]:
             "matrix_type": c["matrix_type"], "lu": c["lu"], "solver": c["solver"], **extra}
 
 
-def gen_case(rng, system=None, flavour=None) -> dict[str, Any]:
+def gen_case(rng, system=None, flavour=None, path=None) -> dict[str, Any]:
     """One case.  Flavours:
     * "plain":   successive requests on one assembly / one fresh MDA linearization (round-1 stream);
     * "history": the same MDA linearized several times (added differentiated outputs, same or other
@@ -1026,7 +1026,7 @@ def gen_case(rng, system=None, flavour=None) -> dict[str, Any]:
     "history" and "sweep" cases are rescaled (`exps`) with probability 1/2 and 3/4."""
     system = system or gen_system(rng)
     flavour = flavour or rng.pick(["plain", "history", "sweep"])
-    cfg0 = gen_config(rng, system)
+    cfg0 = gen_config(rng, system, path)
     path = cfg0["path"]
     case = {"system": system, "path": path, "kinds": cfg0["kinds"], "steps": [], "flavour": flavour}
     if flavour == "plain":
@@ -1039,12 +1039,15 @@ def gen_case(rng, system=None, flavour=None) -> dict[str, Any]:
             case["exps"] = gen_exps(rng, system)
         return case
     case["restrict"] = rng.chance(0.3)
-    case["cache"] = rng.pick(["simple", "simple", "memory_full"])
+    case["cache"] = rng.pick(["simple", "simple", "simple", "simple", "memory_full"])
     if flavour == "sweep":
         req = _gen_connected_request(rng, system)
         if req is not None:
             combos = list(SWEEP)
             rng.shuffle(combos)
+            if path.startswith("MDAChain") or path == "MDANewtonRaphson":
+                # costly MDAs: both LU combinations and three others
+                combos = [c for c in combos if c[2] and c[0] != "auto"] + [c for c in combos if not c[2]][:3]
             for mode, mt, lu in combos:
                 case["steps"].append(_step(req, {"mode": mode, "matrix_type": mt, "lu": lu, "solver": rng.pick(SOLVERS)}))
         if path != "assembly":
@@ -1841,8 +1844,11 @@ def run(ctx) -> Result:
         "requests are connected: every requested function depends on a requested variable at the level of the discipline graph and conversely (the code raises on purpose otherwise)",
         "BICG/BICGSTAB/CGS/TFQMR: a SciPy break-down (RuntimeError) is counted, not judged; an inaccurate result is a violation only if GMRES reproduces it",
         "CG is excluded (needs a symmetric positive definite matrix, the residual Jacobian is not)",
-        f"work limit: a step may apply SciPy linear operators at most {WORK_LIMIT} times (deterministic count, not a wall-clock "
-        f"limit); a step running longer than {CASE_WALL_S:.0f} s of wall clock is skipped (counted, never judged)",
+        f"work limit: a step may apply SciPy linear operators at most {WORK_LIMIT} times ({WORK_LIMIT_LOW} once three steps "
+        "of the run have hit the limit); the count is deterministic (no wall clock). A step stopped at the limit is an oracle "
+        "failure only if the exact observation of the disciplines' Jacobians shows that the operands of the assembly were "
+        f"modified, otherwise it is skipped (probe:work-limit-unconfirmed); a step running longer than {CASE_WALL_S:.0f} s "
+        "of wall clock is skipped too (counted, never judged)",
     ]
     use_lean = ctx.audit is not None or os.environ.get("C07_FORCE_LEAN") == "1"
     rng = ctx.rng
@@ -1863,8 +1869,11 @@ def run(ctx) -> Result:
         ex = exact_total(system)
         if cf is None or any(cf[k] != ex[k] for k in cf):
             raise RuntimeError("harness oracles disagree (closed form vs derivative of the solution)")
-        for flavour in ("plain", "plain", "history", "sweep"):
+        for flavour in ("plain", "plain", "history"):
             cases.append(gen_case(rng, system, flavour))
+        cases.append(gen_case(rng, system, "sweep", "assembly"))
+        if rng.chance(0.5):
+            cases.append(gen_case(rng, system, "sweep", rng.pick(MDA_PATHS)))
         for _ in range(2):
             asm_items.append((system, gen_kinds(rng, system), gen_asm(rng, system)))
     cases = [c for c in cases if c["steps"] and _valid_case(c)]
